@@ -1,39 +1,40 @@
 (* Properties/C18.v — C18: the num_traits / num_integer implementations honour the trait contracts.
    Every theorem is for ALL digit widths w > 0 (roots: widths for which `to_u128` is exact, i.e. w | 128 or
    w > 128, and w >= 2 for the digit division by 3), ALL digit counts n, ALL well-formed operands, both build
-   modes.  Premises (records deps_* of Proofs/NumTraitsDeps.v) are the value-level contracts of the inherent
-   models of other files (Core, Shift, AddSub, Mul, Div, Bits, Pow), proved by their owners. *)
+   modes.  The theorems are premise-free: the value-level contracts of the inherent models of other files
+   (Core, Shift, AddSub, Mul, Div, Bits, Pow) that the proofs use (records deps_* and `_spec`s of
+   Proofs/NumTraitsDeps.v) are discharged in Proofs/DischargeNumTraits.v by the theorems of their owners. *)
 From Bnum Require Import Base Prim.
 From Bnum.Model Require Import Digit Core Shift AddSub Mul Div Bits Pow NumTraits.
-From Bnum.Proofs Require Import NumTraitsZ NumTraitsDeps NumTraitsDepsCheck NumTraits.
+From Bnum.Proofs Require Import NumTraitsZ NumTraitsDeps NumTraitsDepsCheck NumTraits DischargeNumTraits.
 
 (* ---------- div_floor / mod_floor / div_rem ---------- *)
 
 (* BInt: floor pair (the remainder has the divisor's sign), div_rem truncates *)
-Theorem C18_floor_ok : deps_floor -> forall dbg w n a b, 0 < w -> (0 < n)%nat -> wf w n a -> wf w n b ->
+Theorem C18_floor_ok : forall dbg w n a b, 0 < w -> (0 < n)%nat -> wf w n a -> wf w n b ->
   sval w b <> 0 -> ~ (sval w a = - (Mod w n / 2) /\ sval w b = -1) ->
   (exists q, TI_div_floor dbg w a b = Ret q /\ wf w n q /\ sval w q = sval w a / sval w b) /\
   (exists r, TI_mod_floor dbg w a b = Ret r /\ wf w n r /\ sval w r = sval w a mod sval w b) /\
   (exists q r, TI_div_rem dbg w a b = Ret (q, r) /\ wf w n q /\ wf w n r /\
                sval w q = Z.quot (sval w a) (sval w b) /\ sval w r = Z.rem (sval w a) (sval w b)) /\
   TI_is_multiple_of dbg w a b = Ret (sval w a mod sval w b =? 0).
-Proof. exact TI_floor_ok. Qed.
+Proof. exact (TI_floor_ok deps_floor_holds). Qed.
 Print Assumptions C18_floor_ok.
 
-Theorem C18_floor_panic : deps_floor -> forall dbg w n a b, 0 < w -> (0 < n)%nat -> wf w n a -> wf w n b ->
+Theorem C18_floor_panic : forall dbg w n a b, 0 < w -> (0 < n)%nat -> wf w n a -> wf w n b ->
   sval w b = 0 \/ (sval w a = - (Mod w n / 2) /\ sval w b = -1) ->
   TI_div_floor dbg w a b = Panic /\ TI_mod_floor dbg w a b = Panic /\ TI_div_rem dbg w a b = Panic /\
   TI_is_multiple_of dbg w a b = Panic.
-Proof. exact TI_floor_panic. Qed.
+Proof. exact (TI_floor_panic deps_floor_holds). Qed.
 Print Assumptions C18_floor_panic.
 
-Theorem C18_floor_unsigned_ok : deps_udiv -> forall w n a b, 0 < w -> wf w n a -> wf w n b -> uval w b <> 0 ->
+Theorem C18_floor_unsigned_ok : forall w n a b, 0 < w -> wf w n a -> wf w n b -> uval w b <> 0 ->
   (exists q, TU_div_floor w a b = Ret q /\ wf w n q /\ uval w q = uval w a / uval w b) /\
   (exists r, TU_mod_floor w a b = Ret r /\ wf w n r /\ uval w r = uval w a mod uval w b) /\
   (exists q r, TU_div_rem w a b = Ret (q, r) /\ wf w n q /\ wf w n r /\
                uval w q = Z.quot (uval w a) (uval w b) /\ uval w r = Z.rem (uval w a) (uval w b)) /\
   TU_is_multiple_of w a b = Ret (uval w a mod uval w b =? 0).
-Proof. exact TU_floor_ok. Qed.
+Proof. exact (TU_floor_ok deps_udiv_holds). Qed.
 Print Assumptions C18_floor_unsigned_ok.
 
 Theorem C18_floor_unsigned_panic : forall w n a b, 0 < w -> wf w n a -> wf w n b -> uval w b = 0 ->
@@ -45,27 +46,27 @@ Print Assumptions C18_floor_unsigned_panic.
 (* ---------- gcd / lcm ---------- *)
 
 (* the binary gcd ends within its fuel 2*BITS+2 and denotes Z.gcd, in both build modes *)
-Theorem C18_gcd_ok : deps_gcd -> forall dbg w n a b, 0 < w -> wf w n a -> wf w n b ->
+Theorem C18_gcd_ok : forall dbg w n a b, 0 < w -> wf w n a -> wf w n b ->
   exists r, TU_gcd dbg w a b = Some (Ret r) /\ wf w n r /\ uval w r = Z.gcd (uval w a) (uval w b).
-Proof. exact TU_gcd_ok. Qed.
+Proof. exact (TU_gcd_ok deps_gcd_holds). Qed.
 Print Assumptions C18_gcd_ok.
 
-Theorem C18_gcd_signed_ok : deps_gcd -> deps_signed -> forall dbg w n a b, 0 < w -> (0 < n)%nat ->
+Theorem C18_gcd_signed_ok : forall dbg w n a b, 0 < w -> (0 < n)%nat ->
   wf w n a -> wf w n b -> Z.gcd (sval w a) (sval w b) < Mod w n / 2 ->
   exists r, TI_gcd dbg w a b = Some (Ret r) /\ wf w n r /\ sval w r = Z.gcd (sval w a) (sval w b).
-Proof. exact TI_gcd_ok. Qed.
+Proof. exact (TI_gcd_ok deps_gcd_holds deps_signed_holds). Qed.
 Print Assumptions C18_gcd_signed_ok.
 
-Theorem C18_lcm_ok : deps_gcd -> deps_udiv -> U_mul_spec -> forall dbg w n a b, 0 < w -> wf w n a -> wf w n b ->
+Theorem C18_lcm_ok : forall dbg w n a b, 0 < w -> wf w n a -> wf w n b ->
   Z.lcm (uval w a) (uval w b) < Mod w n ->
   exists r, TU_lcm dbg w a b = Some (Ret r) /\ wf w n r /\ uval w r = Z.lcm (uval w a) (uval w b).
-Proof. exact TU_lcm_ok. Qed.
+Proof. exact (TU_lcm_ok deps_gcd_holds deps_udiv_holds U_mul_spec_holds). Qed.
 Print Assumptions C18_lcm_ok.
 
-Theorem C18_lcm_signed_ok : deps_gcd -> deps_signed -> deps_floor -> I_mul_spec -> forall dbg w n a b,
+Theorem C18_lcm_signed_ok : forall dbg w n a b,
   0 < w -> (0 < n)%nat -> wf w n a -> wf w n b -> Z.lcm (sval w a) (sval w b) < Mod w n / 2 ->
   exists r, TI_lcm dbg w a b = Some (Ret r) /\ wf w n r /\ sval w r = Z.lcm (sval w a) (sval w b).
-Proof. exact TI_lcm_ok. Qed.
+Proof. exact (TI_lcm_ok deps_gcd_holds deps_signed_holds deps_floor_holds I_mul_spec_holds). Qed.
 Print Assumptions C18_lcm_signed_ok.
 
 Theorem C18_parity_ok : forall w n a, 0 < w -> (0 < n)%nat -> wf w n a ->
@@ -104,64 +105,64 @@ Theorem C18_newton_decreases : forall k A s R, 1 <= k -> 0 <= R -> 0 <= A -> A <
 Proof. exact newton_lt. Qed.
 Print Assumptions C18_newton_decreases.
 
-Theorem C18_sqrt_ok : deps_roots -> forall dbg w n a, 0 < w -> u128_width_ok w -> (0 < n)%nat -> wf w n a ->
+Theorem C18_sqrt_ok : forall dbg w n a, 0 < w -> u128_width_ok w -> (0 < n)%nat -> wf w n a ->
   exists r, TU_sqrt dbg w a = Some (Ret r) /\ wf w n r /\ uval w r ^ 2 <= uval w a < (uval w r + 1) ^ 2.
-Proof. exact TU_sqrt_contract. Qed.
+Proof. exact (TU_sqrt_contract deps_roots_holds). Qed.
 Print Assumptions C18_sqrt_ok.
 
-Theorem C18_cbrt_ok : deps_roots -> forall dbg w n a, 0 < w -> 3 < B w -> u128_width_ok w -> (0 < n)%nat ->
+Theorem C18_cbrt_ok : forall dbg w n a, 0 < w -> 3 < B w -> u128_width_ok w -> (0 < n)%nat ->
   wf w n a ->
   exists r, TU_cbrt dbg w a = Some (Ret r) /\ wf w n r /\ uval w r ^ 3 <= uval w a < (uval w r + 1) ^ 3.
-Proof. exact TU_cbrt_contract. Qed.
+Proof. exact (TU_cbrt_contract deps_roots_holds). Qed.
 Print Assumptions C18_cbrt_ok.
 
 (* every degree 1..u32::MAX (the full statement, including the general-k Newton iteration);
    degree 0 panics; the fuel of the two loops of `fixpoint` suffices (never None) *)
-Theorem C18_nth_root_ok : deps_roots -> forall dbg w n a k, 0 < w -> 3 < B w -> u128_width_ok w -> (0 < n)%nat ->
+Theorem C18_nth_root_ok : forall dbg w n a k, 0 < w -> 3 < B w -> u128_width_ok w -> (0 < n)%nat ->
   wf w n a -> 0 <= k < 2 ^ 32 ->
   if k =? 0 then TU_nth_root dbg w a k = Some Panic
   else exists r, TU_nth_root dbg w a k = Some (Ret r) /\ wf w n r /\
                  uval w r ^ k <= uval w a < (uval w r + 1) ^ k.
-Proof. exact TU_nth_root_contract. Qed.
+Proof. exact (TU_nth_root_contract deps_roots_holds). Qed.
 Print Assumptions C18_nth_root_ok.
 
-Theorem C18_sqrt_signed_ok : deps_roots -> deps_signed -> forall dbg w n a,
+Theorem C18_sqrt_signed_ok : forall dbg w n a,
   0 < w -> u128_width_ok w -> (0 < n)%nat -> wf w n a ->
   if sval w a <? 0 then TI_sqrt dbg w a = Some Panic
   else exists r, TI_sqrt dbg w a = Some (Ret r) /\ wf w n r /\ 0 <= sval w r /\
                  sval w r ^ 2 <= sval w a < (sval w r + 1) ^ 2.
-Proof. exact TI_sqrt_contract. Qed.
+Proof. exact (TI_sqrt_contract deps_roots_holds deps_signed_holds). Qed.
 Print Assumptions C18_sqrt_signed_ok.
 
-Theorem C18_cbrt_signed_ok : deps_roots -> deps_signed -> forall dbg w n a,
+Theorem C18_cbrt_signed_ok : forall dbg w n a,
   0 < w -> 3 < B w -> u128_width_ok w -> (0 < n)%nat -> wf w n a ->
   exists r, TI_cbrt dbg w a = Some (Ret r) /\ wf w n r /\
          Z.abs (sval w r) ^ 3 <= Z.abs (sval w a) < (Z.abs (sval w r) + 1) ^ 3 /\
          (sval w r = 0 \/ Z.sgn (sval w r) = Z.sgn (sval w a)).
-Proof. exact TI_cbrt_contract. Qed.
+Proof. exact (TI_cbrt_contract deps_roots_holds deps_signed_holds). Qed.
 Print Assumptions C18_cbrt_signed_ok.
 
 (* Panic <-> k = 0 or (negative radicand and even degree); otherwise the root of largest magnitude with
    |r^k| <= |x|, sign preserved for odd k *)
-Theorem C18_nth_root_signed_ok : deps_roots -> deps_signed -> forall dbg w n a k,
+Theorem C18_nth_root_signed_ok : forall dbg w n a k,
   0 < w -> 3 < B w -> u128_width_ok w -> (0 < n)%nat -> wf w n a -> 0 <= k < 2 ^ 32 ->
   if (k =? 0) || ((sval w a <? 0) && Z.even k) then TI_nth_root dbg w a k = Some Panic
   else exists r, TI_nth_root dbg w a k = Some (Ret r) /\ wf w n r /\
          Z.abs (sval w r) ^ k <= Z.abs (sval w a) < (Z.abs (sval w r) + 1) ^ k /\
          (sval w r = 0 \/ Z.sgn (sval w r) = Z.sgn (sval w a)).
-Proof. exact TI_nth_root_contract. Qed.
+Proof. exact (TI_nth_root_contract deps_roots_holds deps_signed_holds). Qed.
 Print Assumptions C18_nth_root_signed_ok.
 
 (* ---------- Signed ---------- *)
-Theorem C18_signum_ok : is_negative_spec -> forall w n a, 0 < w -> (0 < n)%nat -> wf w n a ->
+Theorem C18_signum_ok : forall w n a, 0 < w -> (0 < n)%nat -> wf w n a ->
   wf w n (TI_signum w a) /\ sval w (TI_signum w a) = Z.sgn (sval w a).
-Proof. exact TI_signum_ok. Qed.
+Proof. exact (TI_signum_ok is_negative_spec_holds). Qed.
 Print Assumptions C18_signum_ok.
 
-Theorem C18_abs_sub_ok : icmp_spec -> I_sub_spec -> forall dbg w n a b, 0 < w -> (0 < n)%nat ->
+Theorem C18_abs_sub_ok : forall dbg w n a b, 0 < w -> (0 < n)%nat ->
   wf w n a -> wf w n b -> sval w a - sval w b < Mod w n / 2 ->
   exists r, TI_abs_sub dbg w a b = Ret r /\ wf w n r /\ sval w r = Z.max 0 (sval w a - sval w b).
-Proof. exact TI_abs_sub_ok. Qed.
+Proof. exact (TI_abs_sub_ok icmp_spec_holds I_sub_spec_holds). Qed.
 Print Assumptions C18_abs_sub_ok.
 
 (* ---------- forwarders = inherent models ---------- *)
@@ -234,7 +235,8 @@ Proof. vm_compute. repeat split; intro H; discriminate H. Qed.
 Example C18_sqrt_newton_witness : TU_sqrt true 64 [0; 0; 1] = Some (Ret [0; 1; 0]).
 Proof. vm_compute. reflexivity. Qed.
 
-(* the premises (the deps_ records), restated as boolean checks, hold on every operand tuple of the configurations
-   (w, n) = (2,1), (2,2), (3,2), (2,3) in both build modes (kernel evaluation): they are not vacuous *)
+(* the contracts of the other models (the deps_ records, now proved for all widths in DischargeNumTraits.v),
+   restated as boolean checks, also hold by kernel evaluation on every operand tuple of the configurations
+   (w, n) = (2,1), (2,2), (3,2), (2,3) in both build modes *)
 Example C18_premises_hold_on_small_configs : deps_check_all = true.
 Proof. exact deps_check_all_ok. Qed.
